@@ -1,6 +1,7 @@
 from __future__ import annotations
 
 import os
+import re
 from pathlib import Path
 
 from fortls.constants import KEYWORD_ID_DICT, KEYWORD_LIST, FRegex, sort_keywords
@@ -93,6 +94,10 @@ def detect_fixed_format(file_lines: list[str]) -> bool:
             pp_continue = line.rstrip().endswith("\\")
             continue
         if FRegex.FREE_FORMAT_TEST.match(line):
+            return False
+        # Fixed form allows only a comment flag (C, D, *, !) or a label in
+        # column 1: a statement that starts there with another letter is free form
+        if re.match(r"[abe-z_]", line, re.I):
             return False
         tmp_match = FRegex.VAR.match(line)
         if tmp_match and tmp_match.start(1) < 6:
